@@ -202,8 +202,8 @@ func commitProtocol(c *Ctx) *commitProto {
 			in := ssa.Instruction(call)
 			cp.visited[in.Parent()] = true
 			// a call that is walked into is judged by what happens inside, not by its summary
-			if cv, ok := call.(*ssa.Call); ok {
-				if f, _ := closureCallee(cv); f != nil {
+			if cv, ok := call.(*ssa.Call); ok && !isDur(in) {
+				if f, _ := closureCallee(cv); f != nil && f.Synthetic == "" {
 					return
 				}
 				if pm, isP := cv.Call.Value.(*ssa.Parameter); isP && px.Cur != nil {
